@@ -543,7 +543,13 @@ def r07f(ctx, inst):
                           f"output through str(edit) / nested reprs (e.g. `Replace(to_replace=..., replace_with=<{short} object at "
                           f"0x7f..>)` with --only-edits), so two runs on the same input print different bytes")
         else:
-            ctx.proved("R07f", m.files[mod], short, node, f"{short} repr", f"{r.short} is project-defined", nontrivial=False)
+            addr = [c for c in walk_no_nested(r.node) if isinstance(c, ast.Call) and (call_name(c) == "id" or (call_name(c) or "").endswith("object.__repr__"))]
+            if addr:
+                ctx.violation("R07f", r.file, r.short, addr[0], f"{short} repr",
+                              f"{r.short} puts `{norm(addr[0], 30)}` into the text: a memory address differs from run to run, and this text "
+                              f"reaches the output through str(edit) / nested reprs (--only-edits)")
+            else:
+                ctx.proved("R07f", m.files[mod], short, node, f"{short} repr", f"{r.short} is project-defined and address-free", nontrivial=False)
     ctx.floor("R07f", n, 35, "concrete node and constant-edit classes")
     # project classes wrapped as a leaf's object
     leaf = m.need_class("LeafNode")
